@@ -286,4 +286,19 @@ PROPS = {
         "assumptions": ["Go 1.23 fmt semantics for strings", "the vetted golden files of the repository are correct"],
         "parts": [rapid("verbs", "TestVerbs", 24000, 480000), rapid("verbose-structure", "TestVerbose", 8000, 160000), plain("golden-corpus", "TestCorpus")],
     },
+    "C19": {
+        "pkg": "c19",
+        "level": "exploration",
+        "level_text": "Generated search with shrinking against an independent model: chains of 0-8 (thorough 0-14) annotation layers (hints, details, issue links, "
+                      "telemetry keys, tags, assertion markers, a user type implementing ErrorHinter/ErrorDetailer, domains, codes; 1 in 8 another wrapper, secondary "
+                      "error or Mark reference carrying hints that must not contribute) over a bottom that is an unimplemented error, an assertion failure, a barrier "
+                      "hiding hints, or a plain leaf; all strings come from a pool of four texts plus the empty string, which forces repeats and empties. "
+                      "GetAllHints/GetAllDetails/FlattenHints/FlattenDetails/GetAllIssueLinks/GetContextTags/GetTelemetryKeys are compared with the model.",
+        "level_note": "Standard hints are composed from the library's exported constants (assert.AssertionErrorHint, issuelink.UnimplementedErrorHint, stdstrings.IssueReferral).",
+        "technique": "property-based testing (rapid): independent model of hint/detail/link/tag/key aggregation over constructed annotation chains with a small string pool",
+        "rule": "rapid-constructed annotation chains over a 5-string pool. Non-trivial = at least one repeated hint or one empty hint/detail in the chain. "
+                "Distinct = hash of the case JSON.",
+        "assumptions": ["logtags replaces the value of a tag whose key is added twice"],
+        "parts": [rapid("aggregation", "TestProp", 40000, 800000)],
+    },
 }
